@@ -16,6 +16,8 @@ Reading guide.
 import Ymq.Lemmas.PolySiqsExact
 import Ymq.Lemmas.PolyCrt
 import Ymq.Lemmas.PolyWalkB
+import Ymq.Lemmas.PolyUnit
+import Ymq.Lemmas.PolySizesWalk
 import Ymq.Lemmas.PolyMpqs
 import Ymq.Lemmas.PolyQs
 
@@ -266,6 +268,93 @@ theorem roots_exact (n : Int) (fb : List Prime) (f : Factors) (a mm idx : Nat) (
     have hbodd : pol.b % 2 = 1 := hw.2.2.2.1 ht2
     exact exact_two (mm := mm) fam hfin (ht0.trans ht2) hex hbodd haodd hi hi' hp2 x
 
+open Ymq.PolySizes in
+/-- `poly_exact_domain`: on the parameter domain `SizeDom n M A nf` — `0 < n < 2^448`, `2^15 ≤ M < 2^20`
+(the values of `siqs::interval_size`), `A` within a factor 4 of the target `max(2000, isqrt(2n or n/2)/(M/2))`
+of `select_siqs_factors` (the widest window `select_a` ever uses), at most 32 factors — the exact `C` of
+EVERY polynomial of the walk fits: `Exact pol A` holds without a size hypothesis, and `|C| < 2^254`, so the
+code's `assert!(pol.c.abs().bits() < 255)`, which reads the PREVIOUS polynomial's `C`, can never fire on this
+domain and never lets a truncated `C` through (it is redundant there; see `stale_c_check_witness` for what
+happens outside). Also `0 ≤ B ≤ 2·nf·A`. -/
+theorem poly_exact_domain (n : Int) (fb : List Prime) (f : Factors) (a mm idx : Nat) (pa : APrep) (pol : Poly)
+    (hn : f.n = n) (hpa : prepareA f a fb (-((mm : Int) / 2)) = some pa) (hne : pa.factors.isEmpty = false)
+    (hpol : polyAt (mkSieve n mm) pa idx = some pol) (d : SizeDom n mm a pa.factors.length) :
+    Exact pol a ∧ -(2 ^ 254 : Int) < pol.c ∧ pol.c < 2 ^ 254 ∧
+    0 ≤ pol.b ∧ pol.b ≤ 2 * (pa.factors.length : Int) * a ∧ a < 2 ^ 213 := by
+  obtain ⟨h1, h2, h3⟩ := poly_exact_dom hn hpa hne hpol d
+  obtain ⟨h4, h5⟩ := polyAt_b_le hpa hne idx pol hpol
+  exact ⟨h1, h2, h3, h4, h5, dom_A_lt d⟩
+
+/-- the witness family of the next two theorems: a 300-bit `n ≡ 3 (mod 4)` with the absurd `A = 5·7` -/
+private def nW : Int := 1741878535172816664252695627013383064478395081129382887605633762352202768132695533298853231
+private def fbW : List Prime := [⟨2, 1⟩, ⟨3, 1⟩, ⟨5, 1⟩, ⟨7, 2⟩, ⟨17, 5⟩, ⟨23, 2⟩, ⟨31, 14⟩, ⟨37, 7⟩]
+private def selW : List Prime := [⟨3, 1⟩, ⟨5, 1⟩, ⟨7, 2⟩, ⟨17, 5⟩]
+
+/-- `stale_c_check_witness` (outside the domain): through the public `prepare_a`/`Poly::first`/`Poly::next` with
+`A = 35` for a 300-bit `n`, the exact `C ≈ −n/35` has 295 bits; the model (and the real code: corpus seed
+`siqs_custom … 35 …`, both profiles) returns the polynomials number 0 and 1 WITHOUT a panic and with a stored
+`C` that is not the exact one: the size check of `_finish_polynomial` reads the previous value (0 for the first
+polynomial, the truncated one afterwards). `select_a` cannot produce such an `A` (`poly_exact_domain`). -/
+theorem stale_c_check_witness :
+    ((mkFactors nW selW).bind fun f => (prepareA f 35 fbW (-16384)).bind fun pa =>
+      (polyAt (mkSieve nW 32768) pa 1).bind fun pol =>
+        if polyM pol.type2 35 * pol.c ≠ pol.b * pol.b - pol.n then some () else none).isSome = true := by
+  decide +kernel
+
+/-- a 470-bit `n` and the `A` (18 factors, 0.08 % below the target) chosen for it by the real `select_a` with the
+driver's own `nfactors` and `interval_size` -/
+private def nBig : Int := 2801120721798084443194319083525012728238471807768780386264106652898873979939203804654861052419561097756762317772743590938885607899115726189749
+private def aBig : Nat := 134255733937125049937363673407333452819852353612476957981450426063
+private def selBig : List Prime := [⟨3529, 604⟩, ⟨3533, 649⟩, ⟨3539, 1604⟩, ⟨3803, 1367⟩, ⟨3943, 1554⟩, ⟨4013, 2031⟩,
+  ⟨4049, 2609⟩, ⟨4051, 1374⟩, ⟨4283, 75⟩, ⟨4297, 4181⟩, ⟨4339, 354⟩, ⟨4397, 3888⟩, ⟨4423, 3389⟩, ⟨4493, 975⟩,
+  ⟨4517, 3880⟩, ⟨4547, 901⟩, ⟨4603, 273⟩, ⟨4673, 1456⟩]
+
+open Ymq.PolySizes in
+/-- `size_assert_fails_470` (counter-witness to totality above 2^448): for this 470-bit `n`, interval
+`M = 557056 = siqs::interval_size(470)`, and `A` within 0.1 % of the target, `prepare_a` succeeds but
+`Poly::first` does not return: `_finish_polynomial` stops at `assert!(a.a.bits() + 2 * mlog < 255)`
+(217 + 2·20). Every hypothesis of `SizeDom` holds except `n < 2^448`. On the real code (both profiles)
+`siqs_walk <n> 1 20000 auto auto 4 0 …` panics at that assertion for every probed `n` of 466 bits and more:
+`siqs::siqs` has no size guard (MPQS refuses above 448 bits, QS above 400). -/
+theorem size_assert_fails_470 :
+    (2 : Int) ^ 448 ≤ nBig ∧ siqsTarget nBig 557056 ≤ 4 * aBig ∧ aBig ≤ 4 * siqsTarget nBig 557056 ∧
+    ((mkFactors nBig selBig).bind fun f =>
+      (prepareA f aBig (⟨2, 1⟩ :: selBig) (-((557056 : Nat) : Int) / 2)).bind fun pa =>
+        if (first (mkSieve nBig 557056) pa).isNone ∧ pa.factors.length = 18 then some () else none).isSome
+      = true := by
+  decide +kernel
+
+/-- `roots_exact_unit`: the unit polynomial `A = 1` (no factor; `x² − n` for type 1, `x² + x + (1 − n)/4`
+for type 2) returned by `Poly::first`: its coefficients are exact (`n` below 2^128 is asserted by the code),
+every prime of the factor base not dividing `a2a` (all primes for type 1, all odd primes for type 2) has
+exactly its two roots in the table, and for type 2 the prime 2 gets `(r, r + 1)`, a superset. -/
+theorem roots_exact_unit (n : Int) (fb : List Prime) (f : Factors) (mm : Nat) (pa : APrep) (pol : Poly)
+    (hfb : FbOk n fb) (hn : f.n = n) (hmm : mm < 2 ^ 32)
+    (hpa : prepareA f 1 fb (-((mm : Int) / 2)) = some pa) (he : pa.factors.isEmpty = true)
+    (hpol : first (mkSieve n mm) pa = some pol)
+    (i : Nat) (hi : i < fb.length) (hi' : i < pol.rs.length) (x : Int) :
+    Exact pol 1 ∧
+    (a2aOf n 1 % fb[i].p ≠ 0 →
+      ((fb[i].p : Int) ∣ polyVal pol (x + -((mm : Int) / 2)) ↔
+        (x ≡ (pol.rs[i].1 : Int) [ZMOD fb[i].p] ∨ x ≡ (pol.rs[i].2 : Int) [ZMOD fb[i].p]))) ∧
+    (fb[i].p = 2 → i = 0 → isType2 n = true →
+      (x ≡ (pol.rs[i].1 : Int) [ZMOD 2] ∨ x ≡ (pol.rs[i].2 : Int) [ZMOD 2])) := by
+  obtain ⟨B0, ds, fam, hpaa, _, _⟩ := prepareA_fam hpa
+  rw [hn] at fam
+  obtain ⟨hw, _⟩ := first_walk (mm := mm) fam (soOk_of hmm) hpol
+  have hex : Exact pol 1 := unit_exact hpol he
+  have hmem : fb[i] ∈ fb := List.getElem_mem hi
+  refine ⟨hex, ?_, ?_⟩
+  · intro hnd
+    rw [← hpaa] at hex hnd
+    exact exact_generic hw hex i hi hi' (hfb.prime _ hmem)
+      (lt_trans (hfb.small _ hmem) (by norm_num)) hnd (hfb.root _ hmem).2 x
+  · intro hp2 hi0 ht2
+    subst hi0
+    have hipp : 0 < pa.pps.length := by rw [fam.len]; exact hi
+    obtain ⟨_, hpp, _, _⟩ := mkPP_basic (fam.pp 0 hi hipp)
+    exact unit_two (s := mkSieve n mm) hpol he ht2 hipp (by rw [hpp, hp2]) hi' x
+
 open Ymq.PolyCrt in
 /-- `siqs_B_sq`: the CRT basis of `prepare_a`. For a selection of distinct primes with square roots of
 `n` (`SelOk`), the table of inverses of `select_siqs_factors` (`mkFactors`), `A` the product of the
@@ -351,6 +440,12 @@ example : ∃ pa pol, prepareA fEx 77 fbEx (-((32768 : Nat) : Int) / 2) = some p
     · rename_i hc
       exact ⟨pa, pol, hpa, hc.1, hp, hc.2.1, hc.2.2⟩
     · cases hu
+
+/-- non-vacuity of `roots_exact_unit`: the unit forms of `n = 1022119` (type 1) and `n = 1050589` (type 2) -/
+example : ((prepareA ((mkFactors 1022119 []).get (by decide)) 1 [⟨2, 1⟩, ⟨3, 1⟩, ⟨5, 2⟩, ⟨31, 7⟩] (-16384)).bind fun pa =>
+    first (mkSieve 1022119 32768) pa).isSome = true ∧
+    ((prepareA ((mkFactors 1050589 []).get (by decide)) 1 fbEx (-16384)).bind fun pa =>
+    first (mkSieve 1050589 32768) pa).isSome = true := by decide
 
 /-! ### MPQS -/
 
